@@ -33,8 +33,8 @@ def main():
     quick = c.tier == "quick"
     grid = P.policy_grid()
     scenarios = list(grid)
-    scenarios += buffer_stream(rng, 700 if quick else 8000)
-    for _ in range(900 if quick else 12000):
+    scenarios += buffer_stream(rng, 700 if quick else 4000)
+    for _ in range(900 if quick else 5000):
         cfg = P.gen_cfg(rng)
         scenarios.append({"cfg": cfg, "ops": [P.gen_op(rng) for _ in range(rng.choice([1, 1, 2, 4]))]})
     rp = P.replay_tokens()
@@ -46,7 +46,7 @@ def main():
     singles = [[g] for g in itertools.product((0, 1), range(5), range(4))]             # all 40 registrations
     pairs = [[a, b] for a in itertools.product((0, 1), range(5), range(4)) for b in itertools.product((0, 1), (0, 4), range(4))]
     seqs = [[]] + singles + pairs
-    for _ in range(300 if quick else 3000):
+    for _ in range(300 if quick else 1500):
         seqs.append([(rng.randrange(2), rng.randrange(5), rng.randrange(4)) for _ in range(rng.randint(3, 300))])
 
     def mon_counters(seq, out):
